@@ -291,6 +291,16 @@ type c23Node struct {
 var c23Names = []string{"a", "b", "ab", "aa", ".a", ".b", "a.b"}
 var c23TargetKids = []string{"a", ".b"}
 
+func c23Depth(ns []c23Node) int {
+	d := 0
+	for _, x := range ns {
+		if k := 1 + c23Depth(x.kids); k > d {
+			d = k
+		}
+	}
+	return d
+}
+
 func c23Count(ns []c23Node) int {
 	n := 0
 	for _, x := range ns {
@@ -353,13 +363,14 @@ type c23Cand struct {
 type c23Tree struct {
 	nodes []c23Node
 	size  int
+	depth int
 	rich  bool
 	desc  string
 	cands []c23Cand
 }
 
 func c23NewTree(nodes []c23Node, rich bool) *c23Tree {
-	t := &c23Tree{nodes: nodes, size: c23Count(nodes), rich: rich, desc: "{" + c23Desc(nodes) + "}"}
+	t := &c23Tree{nodes: nodes, size: c23Count(nodes), depth: c23Depth(nodes), rich: rich, desc: "{" + c23Desc(nodes) + "}"}
 	add := func(comps []string, trailing bool, symAt, kind int) {
 		cd := c23Cand{comps: append([]string{}, comps...), trailing: trailing, symAt: symAt, kind: kind}
 		cd.text = strings.Join(comps, "/")
@@ -922,6 +933,21 @@ func c23WithMod(toks []c23Tok, at int, m string) ([]c23Tok, int) {
 	return out, c23MNone
 }
 
+func c23SameOutcome(a, b *c23Outcome) bool {
+	if a.noMatch != b.noMatch || a.err != b.err || len(a.got) != len(b.got) {
+		return false
+	}
+	x, y := append([]string{}, a.got...), append([]string{}, b.got...)
+	sort.Strings(x)
+	sort.Strings(y)
+	for i := range x {
+		if x[i] != y[i] {
+			return false
+		}
+	}
+	return true
+}
+
 // value put by `try { put [P] } catch e { put $e }`
 func c23ListOutcome(v any) c23Outcome {
 	o := c23Outcome{elv: true}
@@ -980,27 +1006,30 @@ func (w *c23Worker) doSeqs(tr *c23Tree, p *c23Pat, seqs [][]int, order int64) {
 				continue
 			}
 			bad = true
-			// does a fresh compilation of this one modifier conform? then the
-			// earlier iterations leaked into this one
+			// what does a fresh compilation of the pattern with this one modifier
+			// give? if something else, the earlier iterations leaked into this
+			// one; if the same, the pattern itself is off, which is the main
+			// pass's business
 			single := p.elvText(at, m)
 			fvs, ferr, fpan := w.eval(fmt.Sprintf("try { put [%s] } catch e { put $e }", single))
 			if fpan == "" && ferr == nil && len(fvs) == 1 {
 				fo := c23ListOutcome(fvs[0])
-				if fk, _ := c23Judge(tr, toks, w.st2, mod, false, "", &fo); fk == "" {
-					res := fmt.Sprintf("%q", o.got)
-					if o.noMatch {
-						res = "exception 'wildcard has no match'"
+				if !c23SameOutcome(&o, &fo) {
+					show := func(o *c23Outcome) string {
+						if o.noMatch {
+							return "exception 'wildcard has no match'"
+						}
+						if o.err != "" {
+							return o.err
+						}
+						return fmt.Sprintf("%q", o.got)
 					}
 					w.report(order*64+int64(si%60), "modifier-leaks-across-evaluations",
-						fmt.Sprintf("tree %s, elvish %s: iteration %d (modifier %s) gives %s: %s; %s; a fresh evaluation of put [%s] gives %q",
-							tr.desc, code, k+1, m, res, msg, c23Expect(tr, w.st2), single, fo.got),
+						fmt.Sprintf("tree %s, elvish %s: iteration %d (modifier %s) gives %s: %s; %s; a fresh evaluation of put [%s] gives %s",
+							tr.desc, code, k+1, m, show(&o), msg, c23Expect(tr, w.st2), single, show(&fo)),
 						map[string]any{"tree": tr.desc, "code": code, "iteration": k + 1})
-					break
 				}
 			}
-			// otherwise the single-modifier pattern itself is off: the main pass reports that
-			w.report(order*64+int64(si%60), key, fmt.Sprintf("tree %s, elvish %s, iteration %d (modifier %s): %s; %s", tr.desc, code, k+1, m, msg, c23Expect(tr, w.st2)),
-				map[string]any{"tree": tr.desc, "code": code, "iteration": k + 1})
 			break
 		}
 		if bad {
@@ -1126,7 +1155,7 @@ func TestVerifC23(t *testing.T) {
 
 		c.Rule(fmt.Sprintf("trees: every directory tree with <=%d entries (depth <=3) over the names %q, each entry a file, a directory or a symlink to a directory holding %q, plus %d fixed larger trees (depth 4, unicode/space/metacharacter/digit/upper-case names); "+
 			"patterns: every sequence of 1..%d tokens over %d tokens {a b . / ? * ** *[match-hidden] ?[set:a] *[range:a-b] **[match-hidden] *[set:b]} not starting with / and without // (%d patterns) plus %d matcher-variety patterns (?,*,** x %d set/range/class/match-hidden chains x 7 contexts); "+
-			"each (tree, pattern) is expanded in the tree as cwd by glob.Pattern.Glob on directly built segments, by glob.Glob on the text when it has no modifiers (trees of <=2 entries and fixed trees), with an absolute directory prefix (<=2 tokens, same trees), and as an elvish `put <pattern>` (trees of <=2 entries and fixed trees: <=%d tokens, and <=%d tokens with each of nomatch-ok, but:a, type:dir, type:regular on each wildcard; 3-entry trees: <=%d / <=%d tokens); "+
+			"on 3-entry trees other than the chains x/y/z only the patterns of <=3 tokens are run; each (tree, pattern) is expanded in the tree as cwd by glob.Pattern.Glob on directly built segments, by glob.Glob on the text when it has no modifiers (trees of <=2 entries and fixed trees), with an absolute directory prefix (<=2 tokens, same trees), and as an elvish `put <pattern>` (trees of <=2 entries and fixed trees: <=%d tokens, and <=%d tokens with each of nomatch-ok, but:a, type:dir, type:regular on each wildcard; 3-entry trees: <=%d / <=%d tokens); "+
 			"re-evaluation (trees of <=1 entry and fixed trees: unmodified patterns of <=%d tokens; trees of <=%d entries: <=2 tokens): `for m [seq] { try { put [P[$m]] } catch e { put $e } }` with $m on the first wildcard, for every sequence of 2..3 modifiers over %q (%d sequences), each iteration judged as the pattern with that modifier alone; "+
 			"class = (expansion route, token-kind sequence, global modifier, size class of the expected set / no-match)",
 			maxEntries, c23Names, c23TargetKids, len(c23Rich), maxLen, len(c23Alpha), nMain, len(pats)-nMain, len(c23Chains),
@@ -1199,6 +1228,10 @@ func TestVerifC23(t *testing.T) {
 						} else if small {
 							plan = c23Plan{api: true, text: true, elv: n <= elvLenSmall, mods: n <= modLenSmall, abs: n <= 2}
 						} else {
+							// 3-entry trees: 4-token patterns only on the chains x/y/z
+							if n > 3 && tr.depth < 3 {
+								continue
+							}
 							plan = c23Plan{api: true, elv: n <= elvLenLarge, mods: n <= modLenLarge, abs: false}
 						}
 						w.l.Begin(tr.desc + " " + p.text)
